@@ -42,7 +42,7 @@ FLOORS = {"quick": {"departures_checked": 20000, "drop_decisions_checked": 20000
                        "monitor_samples_coincident": 6000, "red_arrivals": 2000000, "red_prob_region_arrivals": 400000,
                        "red_below_min": 100000, "red_above_limit": 40000, "lohi_ambiguous": 2000,
                        "arrival_at_departure_instant": 20000}}
-KEYS = tuple(FLOORS["quick"].keys()) + ("monitor_cases", "red_cases", "port_cases", "red_certain_drops_checked", "long_history_cases", "big_clock_cases", "zero_size_packets", "reentry_cases", "reentries")
+KEYS = tuple(FLOORS["quick"].keys()) + ("monitor_cases", "red_cases", "port_cases", "red_certain_drops_checked", "long_history_cases", "big_clock_cases", "zero_size_packets", "reentry_cases", "reentries", "puts_before_the_run", "rate_reassignments")
 # floors for the situations added with the later rounds of seeded changes (evidence that they were really exercised)
 FLOORS["quick"].update({'reentries': 150})
 FLOORS["thorough"].update({'reentries': 750})
@@ -105,8 +105,17 @@ def gen_reentry(rng):
     for k in range(len(arr) * 3):
         if rng.random() < 0.4:
             back[str(k)] = rng.choice(["sync", "sync", 0, 0.25, 1, 3])      # what happens to the k-th departure
-    return {"kind": "reentry", "rate": rate, "qlimit": qlimit, "element_id": rng.choice(["p1", "", 0, 7]),
+    case = {"kind": "reentry", "rate": rate, "qlimit": qlimit, "element_id": rng.choice(["p1", "", 0, 7]),
             "arrivals": arr, "back": back}
+    if rng.random() < 0.4:
+        # packets handed to the port before the simulation has processed its first event
+        case["prestart"] = rng.randint(1, 3)
+    if rate and rng.random() < 0.4:
+        # the public `rate` attribute is reassigned while the simulation runs (at instants off the arrival grid)
+        tmax = max(a["t"] for a in arr) + 5
+        case["rate_changes"] = sorted([round(rng.uniform(0.1, tmax) + 0.0123, 4), rng.choice([800, 1600, 3200, 6400, 400])]
+                                      for _ in range(rng.randint(1, 3)))
+    return case
 
 
 def run_reentry(case, stats):
@@ -147,10 +156,7 @@ def run_reentry(case, stats):
             stats["drops"] += 1
             return
         st["held"] += p.size
-        start = a if st["dep_prev"] is None or st["dep_prev"] <= a else st["dep_prev"]
-        dep = start + (p.size * 8 / rate) if rate > 0 else start
-        st["dep_prev"] = dep
-        expected.append((p, dep))
+        expected.append((p, a))
         stats["stamps_checked"] += 1
         if p.perhop_time.get(eid, "missing") != a:
             bad("perhop-stamp-missing-or-wrong", "an accepted packet is not stamped with its arrival time under the port's element id",
@@ -160,6 +166,24 @@ def run_reentry(case, stats):
 
     seen = set()
     keep = []
+    changes = [tuple(c) for c in case.get("rate_changes", [])]
+
+    def rate_at(t):
+        r = rate
+        for tc, rc in changes:
+            if tc <= t:
+                r = rc
+        return r
+
+    def reconfigure():
+        last = 0
+        for tc, rc in changes:
+            yield env.timeout(tc - last)
+            last = tc
+            port.rate = rc
+            stats["rate_reassignments"] += 1
+    if changes:
+        env.process(reconfigure())
 
     class Peer:
         def put(self, p):
@@ -169,7 +193,12 @@ def run_reentry(case, stats):
             if not expected:
                 bad("refused-packet-forwarded", "a packet left the port that was not held", None)
                 return
-            q, dep = expected.popleft()
+            q, a = expected.popleft()
+            # the transmission began at max(arrival, previous departure) and lasts 8*size/(the rate in force then)
+            start = a if st["dep_prev"] is None or st["dep_prev"] <= a else st["dep_prev"]
+            r_s = rate_at(start)
+            dep = start + (q.size * 8 / r_s) if r_s > 0 else start
+            st["dep_prev"] = env.now
             stats["departures_checked"] += 1
             if q is not p:
                 bad("output-not-accepted-sequence", "the packets leaving the port are not exactly the accepted packets in FIFO order", None)
@@ -194,7 +223,14 @@ def run_reentry(case, stats):
     port.put = put
     port.out = Peer()
     env.post_hooks.append(lambda e: check_bytes("step"))
-    net.drivers(port, case["arrivals"])
+    arrivals = case["arrivals"]
+    npre = case.get("prestart", 0)
+    if npre:
+        for k, a in enumerate(arrivals[:npre]):
+            port.put(net.make_packet(a["flow"], a["size"], 9000 + k))       # before env.run() / env.step() was ever called
+            stats["puts_before_the_run"] += 1
+        arrivals = arrivals[npre:]
+    net.drivers(port, arrivals)
     err = net.run()
     if err:
         bad(err, "the run raised", net.errors[-1] if net.errors else err)
